@@ -422,27 +422,38 @@ def live_list_ref(I, st, it):
     return None
 
 
+_MARK = "__lazy_mark__"
+
+
 def lazy_begin(st):
-    old = st.ghost.get(_REC)
+    """start of an eager evaluation of a lazy iterator; only containers that exist ALREADY (id <= mark) are recorded:
+    what the evaluation allocates itself is private to it"""
+    old = (st.ghost.get(_REC), st.ghost.get(_MARK))
     st.ghost[_REC] = ()
+    st.ghost[_MARK] = st.nid[0]
     return old
 
 
 def lazy_end(st, old, acc):
+    old_rec, old_mark = old
     rec = st.ghost.get(_REC, ())
-    if old is None:
+    if old_rec is None:
         st.ghost.pop(_REC, None)
+        st.ghost.pop(_MARK, None)
     else:
-        st.ghost[_REC] = old + rec
+        st.ghost[_REC] = old_rec + tuple(r for r in rec if r[0] <= old_mark)
+        st.ghost[_MARK] = old_mark
     if rec and isinstance(acc, Ref):
         st.ghost[("lazy_src", acc.id)] = rec
 
 
 def lazy_note(st, ref, items):
-    """called for every list that is iterated: remember it (and what an eager list iterated here itself depends on)"""
+    """called for every list / dict / set that is iterated: remember it (and what an eager list iterated here itself
+    depends on)"""
     deps = st.ghost.get(("lazy_src", ref.id), ())
     if _REC in st.ghost:
-        st.ghost[_REC] = st.ghost[_REC] + ((ref.id, tuple(items)),) + deps
+        mark = st.ghost.get(_MARK, 0)
+        st.ghost[_REC] = st.ghost[_REC] + tuple(r for r in ((ref.id, tuple(items)),) + deps if r[0] <= mark)
     if deps:
         st.ghost["__last_lazy__"] = st.ghost.get("__last_lazy__", ()) + deps
 
